@@ -125,9 +125,7 @@ def run(ctx):
         if kind == "int":
             col = rng.choice(INT_COLS)
             vals = sorted({attr(n, p, col) for p, n in entries})
-            v = rng.choice(vals) + rng.choice([-1, 0, 0, 1]) if rng.random() < 0.8 else rng.randint(0, 3000)
-            if v < 0:
-                continue            # negative literals: known finding F43 (C02), outside the generated domain
+            v = rng.choice(vals) + rng.choice([-1, 0, 0, 1]) if rng.random() < 0.8 else rng.randint(-5, 3000)
             atoms.append(dict(kind="int", col=col, opk=opk, text="%s %s %d" % (col, op, v), lit=v))
         elif kind == "unit":
             u = rng.choice(list(UNITS))
@@ -162,7 +160,7 @@ def run(ctx):
         elif kind == "between":
             col = rng.choice(INT_COLS)
             vals = sorted({attr(n, p, col) for p, n in entries})
-            a, b = sorted([rng.choice(vals), rng.choice(vals)])
+            a, b = sorted([rng.choice(vals) - rng.choice([0, 0, 0, 1, 7]), rng.choice(vals)])
             neg = rng.random() < 0.3
             atoms.append(dict(kind="between", col=col, opk="between", text="%s %sbetween %d and %d" % (col, "not " if neg else "", a, b), lit=(a, b, neg)))
         else:
@@ -179,7 +177,7 @@ def run(ctx):
     for a in atoms:
         if a["kind"] == "int":
             xs = [attr(n, p, a["col"]) for p, n in entries]
-            exprs.append("ints %d %d %s" % (OPK[a["opk"]], a["lit"], "[" + ";".join(str(x) for x in xs) + "]"))
+            exprs.append("ints %d (%d) %s" % (OPK[a["opk"]], a["lit"], "[" + ";".join("(%d)" % x for x in xs) + "]"))
         elif a["kind"] == "bool":
             xs = [1 if attr(n, p, a["col"]) else 0 for p, n in entries]
             exprs.append("bools %d %d %s" % (OPK[a["opk"]], 1 if a["lit"] else 0, "[" + ";".join(str(x) for x in xs) + "]"))
